@@ -92,13 +92,13 @@ CHECKS["C11"] = dict(
     technique="Coq real-analysis proof (Coquelicot is_derive, structural induction) over generated definitions + Interval enclosure",
     design="4/C11")
 CHECKS["C03"] = dict(
-    text=("Theorems (19 obligations) over generated _normal/_nearest_neighbors/_poisson/mle/compute_ls/compute_mu: the prior is the sum of log "
+    text=("Theorems (20 obligations) over generated _normal/_nearest_neighbors/_poisson/mle/compute_ls/compute_mu: the prior is the sum of log "
           "standard-normal pdfs; the NN term is ln(rho d c_d r^(d-1) exp(-rho c_d r^d)) and the loss is the documented negative log posterior; "
           "the NN-distance density integrates to 1 over (0,inf) (is_RInt_gen) for all rho,d>0; the MLE is the unique maximiser with the closed "
-          "form; Poisson k-NN term documented, maximised at ln j, equals the NN model for k=1; ls = e^3 geomean, mu = q_0.01(mle)-10 with "
+          "form; Poisson k-NN term documented, maximised at ln j, equals the NN model for k=1, and exp(term) d/r integrates to 1 over (0,inf) for EVERY neighbour count (C03_knn_poisson_density_normalised); ls = e^3 geomean, mu = q_0.01(mle)-10 with "
           "interpolating quantile (bounded, shift-equivariant), d default, ridge target. Interval goals enclose the model at sampled (r,d,z)."),
     note=("Trusted: as C05; gammaln is an uninterpreted function lgam whose sampled values are taken as given (cross-checked against scipy/"
-          "math.lgamma). The ridge start value is the unique minimiser of the ridge objective (C03_ridge_unique_minimiser, MathComp, any real closed field). PARTIAL: k-NN normalisation for k>1 and loss_strictly_convex are not proved; tree "
+          "math.lgamma). The ridge start value is the unique minimiser of the ridge objective (C03_ridge_unique_minimiser, MathComp, any real closed field). Strict convexity of the loss is C17_loss_strictly_convex (thm/AConvexThm.v). Tree "
           "nearest-neighbour search and Ridge are contracts validated per run."),
     technique="Coq real-analysis proof (Coquelicot RInt_gen, derivatives) over generated definitions + Interval enclosure",
     design="4/C03")
@@ -251,8 +251,8 @@ CHECKS["C17"] = dict(
           "3 optimisers x jit x gp types x n_iter grid: objective vs an independent NumPy formula, non-increase, reported loss, gradient-norm "
           "ratio, trace prefix property, bit-identical repeats in-process and in two fresh interpreters, jit on/off agreement."),
     note=("Trusted: Coq kernel; table extractor translate/c17_tables.py; SciPy L-BFGS-B contract. PARTIAL / RUNTIME: optimiser quality, "
-          "cross-process bit-reproducibility and jit agreement are properties of SciPy/XLA executions - tested, not proved; strict convexity is "
-          "proved for the scalar core only; jit difference after several Adam/ADVI steps is measured, not bounded."),
+          "cross-process bit-reproducibility and jit agreement are properties of SciPy/XLA executions - tested, not proved; the generated objective IS proved strictly and 1-strongly convex with at most one minimiser and quadratic growth "
+          "around it (C17_loss_strictly_convex / _strongly_convex / _minimiser_unique / _quadratic_growth; existence of the minimiser is not proved); jit difference after several Adam/ADVI steps is measured, not bounded."),
     technique="Coq proof over AST-generated tables + loop-model induction + optimiser contract; runtime clauses by execution",
     design="4/C17")
 NOT_YET = {}
